@@ -145,20 +145,19 @@ class Tagged(error.ConnectError):
     pass
 
 
-def fallback(outcomes):
-    """TorClientEndpoint without a SOCKS endpoint: outcomes per well-known port"""
-    reactor = proto_helpers.MemoryReactorClock()
-    ep = TorClientEndpoint("www.example.com", 80, reactor=reactor)
+def _connect_once(ep, reactor, outcomes):
+    """one connect() on the endpoint; outcomes per attempted well-known port"""
+    base = len(reactor.tcpClients)
     fired = []
     d = ep.connect(Factory.forProtocol(Protocol))
     d.addBoth(fired.append)
     tried = []
     for i, out in enumerate(outcomes):
-        if len(reactor.tcpClients) <= i:
+        if len(reactor.tcpClients) - base <= i:
             break
-        host, port, factory, timeout, bind = reactor.tcpClients[i]
+        host, port, factory, timeout, bind = reactor.tcpClients[base + i]
         tried.append(port)
-        connector = reactor.connectors[i] if hasattr(reactor, "connectors") and len(reactor.connectors) > i else None
+        connector = reactor.connectors[base + i] if hasattr(reactor, "connectors") and len(reactor.connectors) > base + i else None
         if out == "connerr":
             factory.clientConnectionFailed(connector, failure.Failure(Tagged("attempt %d" % (i + 1))))
         elif out == "other":
@@ -180,7 +179,7 @@ def fallback(outcomes):
                     p.dataReceived(b"\x05\x00\x00\x01\x01\x02\x03\x04\x00\x50")
         if fired:
             break
-    for extra in reactor.tcpClients[len(tried):]:
+    for extra in reactor.tcpClients[base + len(tried):]:
         tried.append(extra[1])
     result, which = "pending", 0
     if fired:
@@ -197,7 +196,18 @@ def fallback(outcomes):
         else:
             result = "ok"
             which = len(tried)
-    return dict(part="b", outcomes=list(outcomes), obs=dict(tried=tried, result=result, which=which))
+    return dict(tried=tried, result=result, which=which)
+
+
+def fallback(outcomes, prior=None):
+    """TorClientEndpoint without a SOCKS endpoint: outcomes per well-known port.  prior: the outcomes an earlier
+    connect() on the same endpoint object met (what listens where may have changed since)"""
+    reactor = proto_helpers.MemoryReactorClock()
+    ep = TorClientEndpoint("www.example.com", 80, reactor=reactor)
+    if prior is not None:
+        _connect_once(ep, reactor, prior)
+    obs = _connect_once(ep, reactor, outcomes)
+    return dict(part="b", outcomes=list(outcomes), prior=list(prior or []), obs=obs)
 
 
 class _Sink(object):
